@@ -243,7 +243,7 @@ def check_miss_and_counts(P, ctx):
     for m, want in (('get', 'KeyError'), ('rem', 'KeyError'), ('mem', False)):
         fn = P.fn(P.slot('Tree', 'Get', m))
         ctx.fn(fn)
-        if m in ('get', 'mem'):
+        if m in ('get', 'mem', 'rem'):
             from . import absmodel
             if (id(P), m) not in LOOKUP:
                 try:
